@@ -303,7 +303,18 @@ def main(argv):
         r = run_verus(unit)
         crashed = (r["json"] is None) or ("panicked at" in r["stderr"]) or ("internal compiler error" in r["stderr"])
         fails, frontend, canary = classify(r, lmap, fns_by_key) if r["json"] is not None or r["diags"] else ([], [], False)
-        if any("rlimit" in (d.get("message", "").lower()) or "resource limit" in d.get("message", "").lower() for d in r["diags"]):
+        rl = [d for d in r["diags"] if "rlimit" in (d.get("message", "").lower()) or "resource limit" in d.get("message", "").lower()]
+        if rl:
+            # the solver gave up on a function of a CHANGED tree (the function itself changed, or it now calls something whose contract was lost):
+            # it is outside the verifier's reach (stub and go on).  On the unchanged tree this is a problem of the machinery itself -> undecided
+            prog = False
+            for d in rl:
+                sp = next((x for x in d.get("spans", []) if x.get("is_primary")), None)
+                m = lmap.at(sp["line_start"]) if sp else None
+                k = "%s|%s::%s" % (m["file"], m.get("impl", "-"), m["fn"]) if (m and m.get("fn")) else None
+                if k and k not in stub and (k in changed or changed or stub): stub.add(k); stub_reason[k] = "the solver's resource limit was exceeded on this function of the changed tree"; prog = True
+            if prog: continue
+            if os.environ.get("RUNNER_DEBUG"): print("DEBUG rlimit: %s" % [(d.get("message", "")[:80], [(x.get("line_start"), (lmap.at(x["line_start"]) or {}).get("fn")) for x in d.get("spans", [])]) for d in rl], file=sys.stderr)
             undecided = "resource limit exceeded"; break
         if os.environ.get("RUNNER_DEBUG"):
             print("DEBUG attempt %d: crashed=%s frontend=%s stub=%s drop_uses=%s" % (attempt, crashed, [(f["message"][:90], f["line"]) for f in frontend[:6]], sorted(stub), sorted(drop_uses)), file=sys.stderr)
